@@ -1,16 +1,19 @@
 """C01 - Analysis is total: no input can crash, hang or poison an analyzer.
 
-Structural clauses decided (DESIGN.md §5 C01), over every body of the five library crates:
+Structural clauses decided, over every body of the five library crates:
  R1 every panic-capable site (MIR BoundsCheck assert, slice/Vec/str Index call, drain/split_at/copy_from_slice/
     remove/insert, RefCell borrow, unwrap/expect, explicit panics) is discharged by the length/interval reasoning of
-    engine/absint.py or is a reviewed site (tables/c01_reviewed_sites.json, keyed structurally, one reason each)
+    engine/absint.py or is a reviewed site (tables/c01_reviewed_sites.json, keyed structurally, one reason each);
+    str slices additionally need a char-boundary argument (bounds returned by find() on the same str are accepted)
  R2 every arithmetic assert (overflow, division/remainder by zero, shift amount) is discharged
  R3 every loop terminates: iterator loops over finite std sources are accepted by shape; all others are listed in
-    tables/c01_loops.json and re-checked structurally (a variant that strictly progresses on every back edge)
+    tables/c01_loops.json and re-checked structurally (counter / shrinking slice / batch fill / blocking service loop:
+    a variant that strictly progresses on every back edge)
  R4 no user-written `unsafe` in the five crates
  R5 every call into a dependency crate from the analysed code is in tables/trusted_api.json
- R7 worker liveness: a service loop ends only on shutdown / queue disconnect / closed result channel, never because of a packet
  R6 no poisoning: interior-mutable analyzer state written on the per-input path is reset before each use (shared with C07-R1)
+ R7 worker liveness: a service loop ends only on shutdown / queue disconnect / closed result channel, and the TCP
+    worker's process_packet answers `stop` only when the result channel is closed - never because of a packet
 """
 import json
 import os
